@@ -336,6 +336,19 @@ fn do_setup(entries: u32, p: &mut Params) -> i64 {
     if let Some(errno) = plan.fail {
         return -i64::from(errno);
     }
+    // Parameter combinations the kernel rejects (io_uring_setup(2)).
+    const SETUP_SQ_AFF: u32 = 4;
+    const SETUP_ATTACH_WQ: u32 = 32;
+    const SETUP_DEFER_TASKRUN: u32 = 8192;
+    if p.flags & SETUP_DEFER_TASKRUN != 0 && (p.flags & SETUP_SINGLE_ISSUER == 0 || p.flags & SETUP_SQPOLL != 0) {
+        return -i64::from(EINVAL);
+    }
+    if p.flags & SETUP_SQ_AFF != 0 && p.flags & SETUP_SQPOLL == 0 {
+        return -i64::from(EINVAL);
+    }
+    if p.flags & SETUP_ATTACH_WQ != 0 && !kernel().rings.contains_key(&(p.wq_fd as i32)) {
+        return -i64::from(EBADF);
+    }
     let clamp = p.flags & SETUP_CLAMP != 0;
     let mut sq_entries = entries;
     if sq_entries == 0 {
